@@ -14,7 +14,7 @@ RO == UNCHANGED hvars
 
 TNew   == Ev.op = "new" /\ New(Ev.maxreq, Ev.max) /\ Obs
 TSet   == Ev.op = "setfile" /\ SetFile([cls |-> Ev.fcls, ents |-> Pairs(Ev.fents), max |-> Ev.fmax]) /\ Obs
-TAdd   == Ev.op = "add" /\ ~Ev.panic /\ (\E b \in {max} \cup 1..(Len(ents) + 1) : AddB(Ev.q, Ev.id, b)) /\ Obs
+TAdd   == Ev.op = "add" /\ ~Ev.panic /\ Ev.fresh /\ (\E b \in {max} \cup 1..(Len(ents) + 1) : AddB(Ev.q, Ev.id, b)) /\ Obs
 TSave  == Ev.op = "save" /\ Ev.ok /\ Save /\ Obs
 TLoad  == Ev.op = "load" /\ ~Ev.panic /\ LoadTo(ObsEnts, Ev.max) /\ (file.cls # "garbage" => last'.ok = Ev.ok) /\ Obs
 TClear == Ev.op = "clear" /\ Clear /\ Obs
